@@ -1066,7 +1066,7 @@ func (c *Conn) readTopicMetadatav1(brokers map[int32]Broker, topicMetadata []top
 		for _, p := range t.Partitions {
 			partitions = append(partitions, Partition{
 				Topic:           t.TopicName,
-				Leader:          brokers[p.Leader],
+				Leader:          makeBrokers(brokers, p.Leader)[0],
 				Replicas:        makeBrokers(brokers, p.Replicas...),
 				Isr:             makeBrokers(brokers, p.Isr...),
 				ID:              int(p.PartitionID),
@@ -1095,7 +1095,7 @@ func (c *Conn) readTopicMetadatav6(brokers map[int32]Broker, topicMetadata []top
 		for _, p := range t.Partitions {
 			partitions = append(partitions, Partition{
 				Topic:           t.TopicName,
-				Leader:          brokers[p.Leader],
+				Leader:          makeBrokers(brokers, p.Leader)[0],
 				Replicas:        makeBrokers(brokers, p.Replicas...),
 				Isr:             makeBrokers(brokers, p.Isr...),
 				ID:              int(p.PartitionID),
